@@ -238,7 +238,8 @@ def c01(ctx):
     ctx.replay("C01-seeded-random", rc, FIELDS["C01"], exps=rexps)
     ctx.exhaustive = False
     # (3) the binding at step level: recorded engine runs are behaviours of VM.tla
-    tsample = [c for c in cases if c["id"] % (23 if quick else 5) == 0]
+    tsample = [c for c in cases if c["id"] % (23 if quick else 5) == 0] + \
+              [dict(c, id=c["id"] + 200000) for c in ctx.gen_cases("C02") if c["id"] % (9 if quick else 3) == 0]
     res = validate_vm_traces(ctx, "c01", expand_texts(cap_texts(tsample), 30 if quick else 60, ctx.seed))
     if not res["accepted"] and "rejected_case" in res:
         # classify: an observable difference is a verdict, an internal one a diagnostic
@@ -260,13 +261,20 @@ RULES["C02"] = ("programs: spec/Scope.tla C02_Bodies (captures under or / loops 
 def c02(ctx):
     ctx.technique = "TLC-evaluated bindings of the successful path (spec/Semantics.tla) replayed into Compile/Run"
     cases = ctx.gen_cases("C02")
+    quick = ctx.tier == "quick"
+    named = ctx.gen_cases("C02N")
+    # the design: frames carry their own bindings (also the per-iteration maps of named loops)
+    sample = [c for c in cases if c["id"] % (4 if quick else 1) == 0]
+    mc_vm(ctx, "bindings", cap_texts(sample + [dict(c, id=c["id"] + 100000) for c in named], hi_cap=3 if quick else 4),
+          what="VM(Codegen(p), t) = reference semantics including environments and nested named-loop maps; every frame restores its own bindings")
+    mc_vm(ctx, "sens-SharedEnv", cap_texts([c for c in cases if c["id"] % 10 == 0], hi_cap=3), dev=["SharedEnv"], expect="RefinesSemantics")
     ctx.replay("C02-exhaustive", cases, FIELDS["C02"])
     rc = random_cases(ctx.seed + 7919, 400 if ctx.tier == "quick" else 4000, with_caps=True)
     rexps, _ = vm_oracle(ctx, "random", rc, max_steps=300000, invariants=("MatchWF", "NoStuck", "StepBound"))
     ctx.replay("C02-seeded-random", rc, FIELDS["C02"], exps=rexps)
     ctx.exhaustive = False
     # bindings scoped by named loops (per-iteration maps, abandoned iterations)
-    ctx.replay("C02-named-loops", ctx.gen_cases("C02N"), FIELDS["C02"])
+    ctx.replay("C02-named-loops", named, FIELDS["C02"])
 
 
 RULES["C03"] = ("all cases of the C01 and C02 scopes, 120 named-loop programs (nested variable maps) and a third of the C14 regex "
@@ -284,6 +292,8 @@ def c03(ctx):
         ctx.replay(fam + "-records", cases, FIELDS["C03"])
     # named loops: spans/locations as the unnamed loop; nested variable maps checked by MatchWF only
     ctx.replay("C03-named-loops", ctx.gen_cases("C03N"), ["spans", "num", "loc", "val", "wf", "panic"])
+    # whole file / line / word (firm where a file, line or word really starts)
+    ctx.replay("C03-whole-classes", ctx.gen_cases("C03W"), FIELDS["C03"])
     # regex literals: the conventional semantics of spec/Regex.tla, full records
     d = ctx.scratch.sub("rxgen")
     out, st0 = vlib.run_tlc(d, "RegexScope", "CONSTANT OutFile = \"cases.ndjson\"\nCONSTANT Tier = \"quick\"\n", workers=1, timeout=300, heap="2g")
@@ -324,7 +334,7 @@ def cap_texts(cases, hi_cap=None, first_cmd_only=True):
 
 
 def mc_vm(ctx, name, cases, dev=(), expect=None, max_steps=5000, workers=None, timeout=900, liveness=False,
-          invariants=("RefinesSemantics", "MatchWF", "LineColOK", "NoStuck", "StepBound", "TypeOK"), what=""):
+          invariants=("RefinesSemantics", "MatchWF", "LineColOK", "NoStuck", "StepBound", "TypeOK"), what="", coverage=False):
     """Model-check spec/VM.tla (the engine as a state machine, run on the code
     spec/Codegen.tla generates) over the given cases.  expect=None: must find
     no error.  expect="RefinesSemantics" etc.: a sensitivity run, TLC must
@@ -337,7 +347,17 @@ def mc_vm(ctx, name, cases, dev=(), expect=None, max_steps=5000, workers=None, t
     cfg = ("SPECIFICATION Spec\nCONSTANT CaseFile = \"cases.ndjson\"\nCONSTANT MaxSteps = %d\nCONSTANT Dev = %s\n"
            "INVARIANTS %s\n%sCHECK_DEADLOCK FALSE\n" % (max_steps, devs, " ".join(invariants),
                                                        "PROPERTY Terminates\n" if liveness else ""))
-    out, st = vlib.run_tlc(d, "VM", cfg, workers=workers or vlib.NCPU, timeout=timeout, heap="8g")
+    out, st = vlib.run_tlc(d, "VM", cfg, workers=workers or vlib.NCPU, timeout=timeout, heap="8g",
+                           extra_args=("-coverage", "1") if coverage else ())
+    if coverage:
+        # per-action counts: an action never taken means the invariants were not exercised on it
+        acts = {}
+        for mm in re.finditer(r"<(\w+) line \d+, col \d+ to line \d+, col \d+ of module VM>: (\d+):(\d+)", out):
+            acts[mm.group(1)] = max(acts.get(mm.group(1), 0), int(mm.group(3)))
+        ctx.diagnostics["vm_action_coverage:" + name] = acts
+        never = sorted(a for a, n in acts.items() if n == 0)
+        if never:
+            ctx.diagnostics["vm_actions_never_taken:" + name] = never
     m = re.search(r"Error: Invariant (\w+) is violated", out)
     tp = re.search(r"Error: Temporal properties were violated", out)
     found = m.group(1) if m else ("Terminates" if tp else None)
@@ -396,7 +416,14 @@ def validate_vm_traces(ctx, name, cases, timeout=900, max_events=300000):
     out, st = vlib.run_tlc(d, "VMTrace", cfg, workers=1, timeout=timeout, heap="8g")
     rejected = "TRACE-REJECTED" in out
     inv = re.search(r"Error: Invariant (\w+) is violated", out)
-    res = {"traces": info["cases"], "events": info["events"], "skipped": info["skipped"],
+    # which VM actions the validated traces exercised (one recorded engine step = one action)
+    ops = {}
+    with open(os.path.join(d, "T.trace.ndjson")) as f:
+        for ln in f:
+            if '"ev":"step"' in ln:
+                o = json.loads(ln)["op"]
+                ops[o] = ops.get(o, 0) + 1
+    res = {"traces": info["cases"], "events": info["events"], "skipped": info["skipped"], "steps_per_vm_action": ops,
            "accepted": not rejected and st["ok"] and not inv, "distinct_states": st["distinct"]}
     if inv:
         res["invariant_violated"] = inv.group(1)
